@@ -82,3 +82,15 @@ From Traph Require Props.C02b.
 Print Assumptions Props.C02b.C02_block_lookup.
 Print Assumptions Props.C02b.C02_block_windup.
 Print Assumptions Props.C02b.C02_block_paths_agree.
+
+(* ---- LRU splitting as the SOURCE has it ----------------------------------------------
+   lru_iter / lru_dirname translated from traph/helpers.py on every run (GenHelpers2.v)
+   are the model's functions, for every byte string (GenHelpers2Facts.v): every theorem
+   above that speaks of the stems of an LRU speaks of what the code computes. *)
+From Traph Require GenHelpers2 GenHelpers2Facts.
+Theorem C02_source_lru_iter : forall l, GenHelpers2.py_lru_iter l = Helpers.lru_iter l.
+Proof. exact GenHelpers2Facts.py_lru_iter_eq. Qed.
+Theorem C02_source_lru_dirname : forall l, GenHelpers2.py_lru_dirname l = Helpers.lru_dirname l.
+Proof. exact GenHelpers2Facts.py_lru_dirname_eq. Qed.
+Print Assumptions C02_source_lru_iter.
+Print Assumptions C02_source_lru_dirname.
